@@ -683,28 +683,33 @@ theorem readd_result {ord : Ord} (ho : OrdOk ord) (ps : List Plugin) {cbs : Cbs}
 theorem load_good {ord : Ord} (ho : OrdOk ord) {cbs : Cbs} (g : Good cbs) (name : Name)
     (avail : Option Plugin) (f : Faults) :
     Good (load ord cbs name avail f).2 ∧ ∀ q ∈ cbs, q ∈ (load ord cbs name avail f).2 := by
+  have triv : Good cbs ∧ ∀ q ∈ cbs, q ∈ cbs := ⟨g, fun _ h => h⟩
   unfold load
   simp only
-  split
-  · exact ⟨g, fun _ h => h⟩
-  · split
-    · exact ⟨g, fun _ h => h⟩
-    · split
-      · exact ⟨g, fun _ h => h⟩
-      · split
-        · exact ⟨g, fun _ h => h⟩
-        · split
-          · exact ⟨g, fun _ h => h⟩
-          · rename_i p _ _ _
-            have h1 := addCallback_result_good ho g p
-            have h2 := fun q (hq : q ∈ cbs) => addCallback_result_mem ho g.wf p hq
-            split
-            · rename_i e c' he
-              rw [he] at h1 h2
-              exact ⟨h1, h2⟩
-            · rename_i c' he
-              rw [he] at h1 h2
-              exact ⟨h1, h2⟩
+  by_cases h0 : (getCallback cbs (stripPy name)).isSome = true
+  · rw [if_pos h0]; exact triv
+  · rw [if_neg h0]
+    cases avail with
+    | none => exact triv
+    | some p =>
+      simp only
+      by_cases h1 : f.importError = true
+      · rw [if_pos h1]; exact triv
+      · rw [if_neg h1]
+        by_cases h2 : f.importOther = true
+        · rw [if_pos h2]; exact triv
+        · rw [if_neg h2]
+          by_cases h3 : (f.deprecated && !f.ignoreDeprecation) = true
+          · rw [if_pos h3]; exact triv
+          · rw [if_neg h3]
+            by_cases h4 : f.ctorRaises = true
+            · rw [if_pos h4]; exact triv
+            · rw [if_neg h4]
+              have h5 := addCallback_result_good ho g p
+              have h6 := fun q (hq : q ∈ cbs) => addCallback_result_mem ho g.wf p hq
+              cases he : addCallback ord cbs p with
+              | ok c' => rw [he] at h5 h6; exact ⟨h5, h6⟩
+              | error e => obtain ⟨er, c'⟩ := e; rw [he] at h5 h6; exact ⟨h5, h6⟩
 
 /-- a callback survives the removal of `n` unless `n` is its own name up to case -/
 theorem mem_removed {cbs : Cbs} {n : Name} {q : Plugin} (hq : q ∈ cbs) (hne : lower q.name ≠ lower n) :
@@ -760,6 +765,12 @@ theorem reload_good {ord : Ord} (ho : OrdOk ord) {cbs : Cbs} (g : Good cbs) (nam
           | ok c' => rw [he] at hreadd; exact hreadd
           | error e => obtain ⟨er, c'⟩ := e; rw [he] at hreadd; exact hreadd
         · rw [if_neg h3]
+          by_cases h3' : f.deprecated = true
+          · rw [if_pos h3']
+            cases he : readd ord (removeCallback cbs name).2 (removeCallback cbs name).1 with
+            | ok c' => rw [he] at hreadd; exact hreadd
+            | error e => obtain ⟨er, c'⟩ := e; rw [he] at hreadd; exact hreadd
+          rw [if_neg h3']
           by_cases h4 : f.ctorRaises = true
           · rw [if_pos h4]; exact ⟨gf, hm⟩
           · rw [if_neg h4]
@@ -812,5 +823,130 @@ theorem removed_singleton {cbs : Cbs} (h : WF cbs) {n : Name} {q : Plugin} (hq :
   match F, hle, hmem with
   | [x], _, hm => simp at hm; rw [hm]
   | _ :: _ :: _, hl, _ => simp at hl
+
+/-! ### persisted flags and the start-up loader -/
+
+theorem load_mem_sub {ord : Ord} (ho : OrdOk ord) {cbs : Cbs} (hw : WF cbs) (name : Name)
+    (avail : Option Plugin) (f : Faults) {q : Plugin} (hq : q ∈ (load ord cbs name avail f).2) :
+    q ∈ cbs ∨ avail = some q := by
+  unfold load at hq
+  simp only at hq
+  by_cases h0 : (getCallback cbs (stripPy name)).isSome = true
+  · rw [if_pos h0] at hq; exact Or.inl hq
+  · rw [if_neg h0] at hq
+    cases avail with
+    | none => exact Or.inl hq
+    | some p =>
+      simp only at hq
+      by_cases h1 : f.importError = true
+      · rw [if_pos h1] at hq; exact Or.inl hq
+      · rw [if_neg h1] at hq
+        by_cases h2 : f.importOther = true
+        · rw [if_pos h2] at hq; exact Or.inl hq
+        · rw [if_neg h2] at hq
+          by_cases h3 : (f.deprecated && !f.ignoreDeprecation) = true
+          · rw [if_pos h3] at hq; exact Or.inl hq
+          · rw [if_neg h3] at hq
+            by_cases h4 : f.ctorRaises = true
+            · rw [if_pos h4] at hq; exact Or.inl hq
+            · rw [if_neg h4] at hq
+              cases he : addCallback ord cbs p with
+              | ok c' =>
+                rw [he] at hq
+                obtain ⟨_, hp, _⟩ := addCallback_ok ho hw he
+                rcases mem_append.mp (hp.mem_iff.mp hq) with h | h
+                · exact Or.inl h
+                · exact Or.inr (by rw [mem_singleton.mp h])
+              | error e =>
+                obtain ⟨er, c'⟩ := e
+                rw [he] at hq
+                have := addCallback_error he
+                subst this
+                exact Or.inl hq
+
+/-- which entries of the flag list make the start-up loader try a plugin -/
+def Wanted (env : Env) (x : Name × Bool) : Prop :=
+  x.2 = true ∨ (env.important.contains x.1 = true ∧ env.alwaysLoadImportant = true)
+
+theorem startupOne_spec {ord : Ord} (ho : OrdOk ord) (env : Env) {cbs : Cbs} (g : Good cbs) (x : Name × Bool) :
+    Good (startupOne ord env cbs x) ∧ (∀ q ∈ cbs, q ∈ startupOne ord env cbs x) ∧
+    (∀ q ∈ startupOne ord env cbs x, q ∈ cbs ∨ (Wanted env x ∧ env.disk x.1 = some q)) := by
+  unfold startupOne
+  split
+  · exact ⟨g, fun _ h => h, fun _ h => Or.inl h⟩
+  · simp only
+    split
+    · rename_i hw
+      have hl := load_good ho g x.1 (env.disk x.1) { env.faults x.1 with ignoreDeprecation := true }
+      refine ⟨hl.1, hl.2, fun q hq => ?_⟩
+      rcases load_mem_sub ho g.wf _ _ _ hq with h | h
+      · exact Or.inl h
+      · refine Or.inr ⟨?_, h⟩
+        simp only [Bool.and_eq_true, Bool.or_eq_true] at hw
+        unfold Wanted
+        rcases hw.1 with h1 | h1
+        · exact Or.inl h1
+        · exact Or.inr h1
+    · exact ⟨g, fun _ h => h, fun _ h => Or.inl h⟩
+
+theorem startup_fold {ord : Ord} (ho : OrdOk ord) (env : Env) (fl : Flags) {cbs : Cbs} (g : Good cbs) :
+    Good (fl.foldl (startupOne ord env) cbs) ∧ (∀ q ∈ cbs, q ∈ fl.foldl (startupOne ord env) cbs) ∧
+    (∀ q ∈ fl.foldl (startupOne ord env) cbs, q ∈ cbs ∨ ∃ x ∈ fl, Wanted env x ∧ env.disk x.1 = some q) := by
+  induction fl generalizing cbs with
+  | nil => exact ⟨g, fun _ h => h, fun _ h => Or.inl h⟩
+  | cons x xs ih =>
+    obtain ⟨g1, k1, s1⟩ := startupOne_spec ho env g x
+    obtain ⟨g2, k2, s2⟩ := ih g1
+    refine ⟨g2, fun q hq => k2 q (k1 q hq), fun q hq => ?_⟩
+    rcases s2 q hq with h | ⟨y, hy, hw⟩
+    · rcases s1 q h with h' | h'
+      · exact Or.inl h'
+      · exact Or.inr ⟨x, mem_cons_self, h'⟩
+    · exact Or.inr ⟨y, mem_cons_of_mem _ hy, hw⟩
+
+theorem mem_insertFlag {x y : Name × Bool} {l : Flags} : y ∈ insertFlag x l ↔ y = x ∨ y ∈ l := by
+  induction l with
+  | nil => simp [insertFlag]
+  | cons a l ih =>
+    unfold insertFlag
+    split
+    · simp
+    · simp only [mem_cons, ih]
+      constructor
+      · rintro (h | h | h)
+        · exact Or.inr (Or.inl h)
+        · exact Or.inl h
+        · exact Or.inr (Or.inr h)
+      · rintro (h | h | h)
+        · exact Or.inr (Or.inl h)
+        · exact Or.inl h
+        · exact Or.inr (Or.inr h)
+
+theorem mem_sortedFlags {y : Name × Bool} {l : Flags} : y ∈ sortedFlags l ↔ y ∈ l := by
+  unfold sortedFlags
+  induction l with
+  | nil => simp
+  | cons a l ih => simp only [foldr_cons, mem_insertFlag, ih, mem_cons]
+
+theorem registerPlugin_set (fl : Flags) (n : Name) (b : Bool) :
+    (∃ x ∈ registerPlugin fl n (some b), x.1 = n) ∧ ∀ x ∈ registerPlugin fl n (some b), x.1 = n → x.2 = b := by
+  unfold registerPlugin
+  simp only
+  constructor
+  · by_cases h : hasFlag fl n = true
+    · rw [if_pos h]
+      unfold hasFlag at h
+      obtain ⟨x, hx, hn⟩ := any_eq_true.mp h
+      have hn' : x.1 = n := by simpa using hn
+      exact ⟨(x.1, b), mem_map.mpr ⟨x, hx, by simp [hn']⟩, hn'⟩
+    · rw [if_neg h]
+      exact ⟨(n, b), mem_map.mpr ⟨(n, false), by simp, by simp⟩, rfl⟩
+  · intro x hx hn
+    obtain ⟨y, _, hy⟩ := mem_map.mp hx
+    split at hy
+    · rw [← hy]
+    · rename_i hne
+      rw [← hy] at hn
+      simp [hn] at hne
 
 end C20
